@@ -2,11 +2,13 @@
 pub mod alloc;
 pub mod drive;
 pub mod engine;
+pub mod gen;
 pub mod monitor;
 pub mod out;
 pub mod props;
 pub mod rfc;
 pub mod spec;
+pub mod stream;
 pub mod watchdog;
 
 #[global_allocator]
